@@ -82,6 +82,9 @@ def ensure_facts(config='default', repo=None, quiet=False):
     repo = repo or REPO
     if not os.path.exists(DRIVER):
         raise ExtractError('driver not built: run /verif/setup.sh')
+    if not os.path.isfile(os.path.join(repo, 'Cargo.toml')) or not os.path.isdir(os.path.join(repo, 'src')):
+        # fail closed: an absent / empty tree must not be answered from a cached fact set
+        raise ExtractError('no crate to analyse at %s (Cargo.toml / src missing)' % repo)
     th = tree_hash(repo)
     out = os.path.join(CACHE, th, config)
     marker = os.path.join(out, 'ok.json')
